@@ -57,19 +57,23 @@ func ReduceWithErrAndCtx[T any, R any](
 }
 
 func Max[O cmp.Ordered](ctx context.Context, o Stream[O]) (O, error) {
-	return Reduce[O](ctx, o, util.DefaultValue[O](), func(acc, v O) O {
-		return max(acc, v)
-	})
+	res, err := Reduce[O, *O](ctx, o, nil, extremumReduceFunc(func(a, b O) O { return max(a, b) }))
+	if err != nil {
+		return util.DefaultValue[O](), err
+	}
+	return valueOrDefault(res), nil
 }
 func MaxLazy[O cmp.Ordered](o Stream[O]) lazy.Lazy[O] {
-	return ReduceLazy[O](o, util.DefaultValue[O](), func(acc, v O) O {
-		return max(acc, v)
-	})
+	return lazy.Map(
+		ReduceLazy[O, *O](o, nil, extremumReduceFunc(func(a, b O) O { return max(a, b) })),
+		valueOrDefault[O],
+	)
 }
 func MinLazy[O cmp.Ordered](o Stream[O]) lazy.Lazy[O] {
-	return ReduceLazy[O](o, util.DefaultValue[O](), func(acc, v O) O {
-		return min(acc, v)
-	})
+	return lazy.Map(
+		ReduceLazy[O, *O](o, nil, extremumReduceFunc(func(a, b O) O { return min(a, b) })),
+		valueOrDefault[O],
+	)
 }
 
 func MustMax[O cmp.Ordered](o Stream[O]) O {
@@ -81,9 +85,11 @@ func MustMax[O cmp.Ordered](o Stream[O]) O {
 }
 
 func Min[O cmp.Ordered](ctx context.Context, o Stream[O]) (O, error) {
-	return Reduce[O](ctx, o, util.DefaultValue[O](), func(acc, v O) O {
-		return min(acc, v)
-	})
+	res, err := Reduce[O, *O](ctx, o, nil, extremumReduceFunc(func(a, b O) O { return min(a, b) }))
+	if err != nil {
+		return util.DefaultValue[O](), err
+	}
+	return valueOrDefault(res), nil
 }
 
 func MustMin[O cmp.Ordered](o Stream[O]) O {
@@ -92,6 +98,26 @@ func MustMin[O cmp.Ordered](o Stream[O]) O {
 		panic(err)
 	}
 	return v
+}
+
+// extremumReduceFunc is a reduce function seeded with the first element of the stream rather than with the zero value
+// (a nil accumulator means no element was seen yet), so that e.g. the maximum of negative values is not 0
+func extremumReduceFunc[O cmp.Ordered](pick func(a, b O) O) func(acc *O, v O) *O {
+	return func(acc *O, v O) *O {
+		if acc == nil {
+			return &v
+		}
+		res := pick(*acc, v)
+		return &res
+	}
+}
+
+// valueOrDefault returns the pointed value, or the zero value for nil (empty stream)
+func valueOrDefault[O any](p *O) O {
+	if p == nil {
+		return util.DefaultValue[O]()
+	}
+	return *p
 }
 
 func ReduceLazy[T any, R any](
